@@ -1,3 +1,4 @@
+import KeepVerif.Gen.C25
 /-!
 # C25 model: `walletDispatcher` (pkg/tbtc/wallet.go)
 
